@@ -50,8 +50,10 @@ def expand(node: Node):
         resolved.append((reference, ids[reference.content]))
     for reference, source_node in resolved:
         destination_node = reference.parent
+        index = destination_node.children.index(reference)
         destination_node.remove_child(reference)
         Node.delete_node_instance(reference.id)
         for source_child in source_node.children:
             source_child_copy = source_child.copy()
-            destination_node.add_child(source_child_copy)
+            destination_node.add_child(source_child_copy, index)
+            index += 1
